@@ -88,6 +88,12 @@ def const_node(x):
     return K(Fraction(x))
 
 
+#: opaque real functions of one argument: name -> (Lean text, float implementation)
+OPAQUE_FNS = {'erf': ('HasErf.erf', math.erf),
+              'normcdf': ('normCdf', lambda x: 0.5 * (1.0 + math.erf(x / math.sqrt(2.0)))),
+              'normpdf': ('normPdf', lambda x: math.exp(-x * x / 2.0) / math.sqrt(2.0 * math.pi))}
+
+
 def children(node):
     return [c for c in node[1:] if isinstance(c, tuple)]
 
@@ -126,10 +132,11 @@ def max_bv_level(node, memo=None):
 _PH_COUNT = [0]
 
 
-def bind(label, build):
-    """build(index_node) -> body ; returns (bv, body) with a canonical bound variable"""
+def bind(label, build, extent=None):
+    """build(index_node) -> body ; returns (bv, body) with a canonical bound variable
+    (`extent`: the node of the range the index runs over; only used by the index arithmetic, `nat_divmod`)"""
     _PH_COUNT[0] += 1
-    ph = ('ph', _PH_COUNT[0])
+    ph = ('ph', _PH_COUNT[0]) if extent is None else ('ph', _PH_COUNT[0], extent)
     body = build(ph)
     bv = ('bv', label, max_bv_level(body) + 1)
     return bv, subst(body, ph, bv)
@@ -139,6 +146,128 @@ def dim_label(d):
     if isinstance(d, tuple) and d[0] == 'dim':
         return d[1]
     return 'i'
+
+
+# ----------------------------------------------------------------------------------------------------------
+# whole-number index / extent arithmetic (C order reshapes, `len(x) // n_dim`, flat parameter layouts)
+# ----------------------------------------------------------------------------------------------------------
+def nat_poly(node):
+    """a whole-number expression built with + and * as a polynomial {sorted tuple of atoms: coefficient};
+    everything else (extents, bound indices, // and % that did not simplify) is an atom"""
+    t = node[0]
+    if t == 'const':
+        return {(): node[1]} if node[1] != 0 else {}
+    if t == 'add':
+        out = dict(nat_poly(node[1]))
+        for mono, c in nat_poly(node[2]).items():
+            out[mono] = out.get(mono, 0) + c
+            if out[mono] == 0:
+                del out[mono]
+        return out
+    if t == 'mul':
+        a, b = nat_poly(node[1]), nat_poly(node[2])
+        out = {}
+        for m1, c1 in a.items():
+            for m2, c2 in b.items():
+                mono = tuple(sorted(m1 + m2, key=repr))
+                out[mono] = out.get(mono, 0) + c1 * c2
+                if out[mono] == 0:
+                    del out[mono]
+        return out
+    return {(node,): Fraction(1)}
+
+
+def _is_index_atom(a):
+    return a[0] in ('bv', 'ph')
+
+
+def poly_node(poly):
+    """canonical node of a polynomial: extents first, then the terms with indices (highest degree first);
+    inside a term: coefficient, indices, extents — `nDim + d`, `p * nDim + d`, `2 * nDim`"""
+    if not poly:
+        return ZERO
+    terms = []
+    for mono, c in poly.items():
+        atoms = sorted(mono, key=lambda a: (not _is_index_atom(a), repr(a)))
+        key = (any(_is_index_atom(a) for a in mono), -len(mono), [repr(a) for a in atoms])
+        nd = None
+        for a in atoms:
+            nd = a if nd is None else ('mul', nd, a)
+        if nd is None:
+            nd = K(c)
+        elif c != 1:
+            nd = ('mul', K(c), nd)
+        terms.append((key, nd))
+    terms.sort(key=lambda kv: kv[0])
+    out = terms[0][1]
+    for _, nd in terms[1:]:
+        out = ('add', out, nd)
+    return out
+
+
+def nat_canon(node):
+    return poly_node(nat_poly(node))
+
+
+def index_bound(atom):
+    """the extent an index atom is known to stay below (None: unknown)"""
+    if atom[0] == 'ph' and len(atom) > 2:
+        return atom[2]
+    if atom[0] == 'bv' and atom[1] in DIM_LABELS:
+        return ('dim', atom[1])
+    return None
+
+
+#: labels of bound / output indices that range over the extent of the same name (`('bv', 'nDim', k) < nDim`)
+DIM_LABELS = set()
+
+
+def nat_divmod(node, div):
+    """(quotient, remainder) of whole-number expressions when both simplify exactly — `(p * D + d) // D = p`
+    with `d < D` known from the axis `d` runs over, `(2 * D) // D = 2` —, else None"""
+    pe, pd = nat_poly(node), nat_poly(div)
+    if len(pd) != 1:
+        return None
+    (dm, dc), = pd.items()
+    if dc <= 0 or dc.denominator != 1:
+        return None
+    q, r = {}, {}
+    for mono, c in pe.items():
+        rest = list(mono)
+        ok = c.denominator == 1 and c % dc == 0
+        for a in dm:
+            if a in rest:
+                rest.remove(a)
+            else:
+                ok = False
+        if ok:
+            q[tuple(rest)] = c / dc
+        else:
+            r[mono] = c
+    if r:
+        if len(r) != 1:
+            return None
+        (rm, rc), = r.items()
+        if rm == ():
+            if not (dm == () and 0 <= rc < dc):
+                return None
+        elif len(rm) == 1 and rc == 1:
+            b = index_bound(rm[0])
+            if b is None or nat_poly(b) != pd:
+                return None
+        else:
+            return None
+    return poly_node(q), poly_node(r)
+
+
+def nat_floordiv(a, b):
+    r = nat_divmod(a, b)
+    return r[0] if r is not None else ('natdiv', nat_canon(a), nat_canon(b))
+
+
+def nat_mod(a, b):
+    r = nat_divmod(a, b)
+    return r[1] if r is not None else ('natmod', nat_canon(a), nat_canon(b))
 
 
 def negate(b):
@@ -200,13 +329,21 @@ def _ev(node, env, bvs):
     if t == 'par':
         return _np.float64(env.par[node[1]])
     if t == 'dim':
+        dims = getattr(env, 'dims', None)
+        if dims is not None:
+            return dims[node[1]]
         return env.n if node[1] == 'n' else env.p
     if t == 'bv':
         return bvs[node]
     if t == 'vec':
         return _np.float64(getattr(env, node[1])[int(_ev(node[2], env, bvs))])
     if t == 'mat':
-        return _np.float64(env.S[int(_ev(node[2], env, bvs)), int(_ev(node[3], env, bvs))])
+        return _np.float64(getattr(env, node[1])[int(_ev(node[2], env, bvs)), int(_ev(node[3], env, bvs))])
+    if t in ('natdiv', 'natmod'):
+        a, b = int(_ev(node[1], env, bvs)), int(_ev(node[2], env, bvs))
+        return a // b if t == 'natdiv' else a % b
+    if t == 'fn':
+        return _np.float64(OPAQUE_FNS[node[1]][1](float(_ev(node[2], env, bvs))))
     if t in ARITH:
         a, b = _ev(node[1], env, bvs), _ev(node[2], env, bvs)
         if t == 'add':
@@ -289,11 +426,97 @@ def _split_or(c):
 
 
 def _same_dim(a, b):
-    return isinstance(a, int) == isinstance(b, int) and a == b
+    if isinstance(a, int) != isinstance(b, int):
+        return False
+    if a == b:
+        return True
+    return (not isinstance(a, int)) and nat_poly(a) == nat_poly(b)
+
+
+class DimInt(int):
+    """a Python int (the witness value) that stands for a symbolic extent — what a model object stores as
+    `self._n_dim`: sequence repetition, `range`, `%d` formatting see the int; arithmetic with numbers, array
+    extents and comparisons inside a trace see the symbol"""
+
+    def __new__(cls, value, node):
+        self = int.__new__(cls, value)
+        self.node = node
+        return self
+
+    def _sym(self):
+        return Sym((), lambda idx, nd=self.node: nd, 'nat')
+
+    def _num(self, o):
+        return isinstance(o, (Sym, int, float, _np.integer, _np.floating)) and not isinstance(o, bool)
+
+    def __add__(self, o):
+        return self._sym() + o if self._num(o) else NotImplemented
+
+    def __radd__(self, o):
+        return o + self._sym() if self._num(o) else NotImplemented
+
+    def __sub__(self, o):
+        return self._sym() - o if self._num(o) else NotImplemented
+
+    def __rsub__(self, o):
+        return o - self._sym() if self._num(o) else NotImplemented
+
+    def __mul__(self, o):
+        return self._sym() * o if self._num(o) else NotImplemented
+
+    def __rmul__(self, o):
+        return o * self._sym() if self._num(o) else NotImplemented
+
+    def __truediv__(self, o):
+        return self._sym() / o if self._num(o) else NotImplemented
+
+    def __rtruediv__(self, o):
+        return o / self._sym() if self._num(o) else NotImplemented
+
+    def __floordiv__(self, o):
+        return self._sym() // o if self._num(o) else NotImplemented
+
+    def __rfloordiv__(self, o):
+        return lift(o) // self._sym() if self._num(o) else NotImplemented
+
+    def __neg__(self):
+        return -self._sym()
+
+    def __pow__(self, o):
+        return self._sym() ** o
+
+    def _cmp(self, op, o):
+        if Trace.current is None or not self._num(o):
+            return getattr(int, '__%s__' % op)(self, o)
+        a, b = self._sym(), o
+        return {'lt': lambda: a < b, 'le': lambda: a <= b, 'gt': lambda: a > b, 'ge': lambda: a >= b,
+                'eq': lambda: a == b, 'ne': lambda: a != b}[op]()
+
+    def __lt__(self, o):
+        return self._cmp('lt', o)
+
+    def __le__(self, o):
+        return self._cmp('le', o)
+
+    def __gt__(self, o):
+        return self._cmp('gt', o)
+
+    def __ge__(self, o):
+        return self._cmp('ge', o)
+
+    def __eq__(self, o):
+        return self._cmp('eq', o)
+
+    def __ne__(self, o):
+        return self._cmp('ne', o)
+
+    __hash__ = int.__hash__
 
 
 def _as_dim(x):
     """int, or a node for a symbolic extent"""
+    if isinstance(x, DimInt):
+        return x.node
     if isinstance(x, Sym):
         if x.shape != () or x.kind != 'nat':
             raise Untraceable('array extent is not a whole-number scalar')
@@ -314,17 +537,30 @@ def _dim_sym(d):
     return d if isinstance(d, int) else Sym((), lambda idx, d=d: d, 'nat')
 
 
+def _nat_scalars(a, b):
+    """the nodes of two whole-number scalars, else None"""
+    try:
+        a, b = lift(a), lift(b)
+    except Untraceable:
+        return None
+    if a.shape_ == () and b.shape_ == () and a.kind == 'nat' and b.kind == 'nat' and a.parts is None \
+            and b.parts is None:
+        return a.fn(()), b.fn(())
+    return None
+
+
 class Sym(object):
     """a symbolic scalar (shape ()) or array; `fn(index_nodes) -> node`; `parts`: a 1-d concatenation"""
     __array_ufunc__ = None
     __array_priority__ = 1000.0
     __hash__ = None
 
-    def __init__(self, shape, fn, kind='real', parts=None):
+    def __init__(self, shape, fn, kind='real', parts=None, owner=False):
         self.shape_ = tuple(shape)
         self.fn = fn
         self.kind = kind
         self.parts = parts
+        self.owner = owner        # a freshly allocated array (np.empty / zeros / ...): item assignment is modelled
 
     # -- numpy-like attributes
     @property
@@ -360,7 +596,10 @@ class Sym(object):
         return self
 
     def copy(self, *a, **k):
-        return self
+        if self.parts is not None:
+            return self
+        f = self.fn
+        return Sym(self.shape_, lambda idx: f(idx), self.kind, owner=True)
 
     def item(self):
         return self._scalar('item()')
@@ -447,6 +686,26 @@ class Sym(object):
 
     def __rtruediv__(self, o):
         return ew('div', o, self)
+
+    def __floordiv__(self, o):
+        ab = _nat_scalars(self, o)
+        if ab is None:
+            raise Untraceable('floor division of values that are not whole-number scalars')
+        nd = nat_floordiv(*ab)
+        return Sym((), lambda idx: nd, 'nat')
+
+    def __rfloordiv__(self, o):
+        return lift(o).__floordiv__(self)
+
+    def __mod__(self, o):
+        ab = _nat_scalars(self, o)
+        if ab is None:
+            raise Untraceable('remainder of values that are not whole-number scalars')
+        nd = nat_mod(*ab)
+        return Sym((), lambda idx: nd, 'nat')
+
+    def __rmod__(self, o):
+        return lift(o).__mod__(self)
 
     def __neg__(self):
         return ew('neg', self)
@@ -547,7 +806,7 @@ class Sym(object):
         return sym_getitem(self, key)
 
     def __setitem__(self, key, value):
-        raise Untraceable('item assignment into an array')
+        sym_setitem(self, key, value)
 
 
 def shape_text(shape):
@@ -564,6 +823,8 @@ def nat_text(d):
 def lift(x):
     if isinstance(x, Sym):
         return x
+    if isinstance(x, DimInt):
+        return x._sym()
     if isinstance(x, (bool, _np.bool_)):
         nd = TRUE if x else FALSE
         return Sym((), lambda idx: nd, 'bool')
@@ -585,12 +846,13 @@ def lift(x):
             if len(it.shape_) != len(shp) or any(not _same_dim(a, b) for a, b in zip(it.shape_, shp)):
                 raise Untraceable('stacking arrays of different shapes')
         kind = _join_kind([it.kind for it in items])
+        fns = [it.fn for it in items]
 
         def fn(idx):
             i = idx[0]
             if i[0] != 'const':
                 raise Untraceable('symbolic index into a stacked list')
-            return items[int(i[1])].fn(tuple(idx[1:]))
+            return fns[int(i[1])](tuple(idx[1:]))
         return Sym((len(items),) + tuple(shp), fn, kind)
     raise Untraceable('value of type %s in an arithmetic expression' % type(x).__name__)
 
@@ -650,7 +912,7 @@ def ew(op, *args):
     if op in ('eq', 'ne') and len(syms) == 2 and all(s.shape_ == () for s in syms):
         # whole-number extents compared with themselves: decided, not a guard
         a, b = syms[0].fn(()), syms[1].fn(())
-        if a == b and syms[0].kind == 'nat':
+        if syms[0].kind == 'nat' and syms[1].kind == 'nat' and (a == b or nat_poly(a) == nat_poly(b)):
             nd = TRUE if op == 'eq' else FALSE
             return Sym((), lambda idx: nd, 'bool')
     shp = _bshape([s.shape_ for s in syms])
@@ -658,12 +920,16 @@ def ew(op, *args):
     kind = _RESULT_KIND.get(op) or _join_kind([s.kind for s in syms])
     if op in ('and', 'or', 'not') and any(s.kind != 'bool' for s in syms):
         raise Untraceable('logical operator on non-boolean values')
+    fns = [s.fn for s in syms]       # values, not views: a later item assignment into an operand does not show
     if op.startswith('opaque:'):
         name = op.split(':')[1]
-        return Sym(shp, lambda idx: ('opaque', name, syms[0].fn(_pick(syms[0], idx, r))), 'bool')
+        return Sym(shp, lambda idx: ('opaque', name, fns[0](_pick(syms[0], idx, r))), 'bool')
+    if op.startswith('fn:'):
+        name = op.split(':')[1]
+        return Sym(shp, lambda idx: ('fn', name, fns[0](_pick(syms[0], idx, r))), 'real')
 
     def fn(idx):
-        return (op,) + tuple(s.fn(_pick(s, idx, r)) for s in syms)
+        return (op,) + tuple(f(_pick(s, idx, r)) for f, s in zip(fns, syms))
     return Sym(shp, fn, kind)
 
 
@@ -689,7 +955,8 @@ def sym_power(a, k):
     if a.parts is not None:
         return concat([sym_power(pt, k) for pt in a.parts])
     kind = a.kind if (k >= 0 and a.kind == 'nat') else 'real'
-    return Sym(a.shape_, lambda idx: ('pow', a.fn(idx), k), kind)
+    f = a.fn
+    return Sym(a.shape_, lambda idx: ('pow', f(idx), k), kind)
 
 
 def _axes(s, axis):
@@ -720,17 +987,18 @@ def _reduce_axis(s, how, ax, keep):
         else:
             idx.insert(ax, i)
         return tuple(idx)
+    f = s.fn
     if isinstance(d, int):
         def fn(idx):
             if d == 0:
                 return ZERO if how == 'sum' else (FALSE if how == 'any' else TRUE)
-            acc = s.fn(put(idx, K(0)))
+            acc = f(put(idx, K(0)))
             for i in range(1, d):
-                acc = ({'sum': 'add', 'any': 'or', 'all': 'and'}[how], acc, s.fn(put(idx, K(i))))
+                acc = ({'sum': 'add', 'any': 'or', 'all': 'and'}[how], acc, f(put(idx, K(i))))
             return acc
     else:
         def fn(idx):
-            bv, body = bind(dim_label(d), lambda i: s.fn(put(idx, i)))
+            bv, body = bind(dim_label(d), lambda i: f(put(idx, i)), extent=d)
             return (how, bv, d, body)
     shp = list(s.shape_)
     if keep:
@@ -787,9 +1055,63 @@ def sym_dot(a, b):
     raise Untraceable('dot of arrays with more than two axes')
 
 
+def _prod_poly(dims):
+    out = {(): Fraction(1)}
+    for d in dims:
+        out = nat_poly(('mul', poly_node(out), _dim_node(d)))
+    return out
+
+
+def _general_reshape(s, shape):
+    """C-order reshape that splits / merges axes, by flat-index arithmetic (`nat_divmod`)"""
+    new = []
+    for d in shape:
+        if isinstance(d, (int, _np.integer)) and not isinstance(d, DimInt) and int(d) == -1:
+            new.append(-1)
+        else:
+            new.append(_as_dim(d))
+    total = _prod_poly(s.shape_)
+    if new.count(-1) > 1:
+        raise Untraceable('reshape with more than one -1')
+    if -1 in new:
+        known = poly_node(_prod_poly([d for d in new if not (isinstance(d, int) and d == -1)]))
+        qr = nat_divmod(poly_node(total), known)
+        if qr is None or qr[1] != ZERO:
+            raise Untraceable('reshape %s -> %r: the free extent cannot be inferred' % (shape_text(s.shape_), shape))
+        q = qr[0]
+        new[new.index(-1)] = int(q[1]) if q[0] == 'const' else q
+    if _prod_poly(new) != total:
+        raise Untraceable('reshape %s -> %s changes the number of entries' % (shape_text(s.shape_), shape_text(new)))
+    strides = [poly_node(_prod_poly(new[j + 1:])) for j in range(len(new))]
+    old = list(s.shape_)
+
+    def fn(idx):
+        flat = ZERO
+        for i, st in zip(idx, strides):
+            flat = ('add', flat, ('mul', i, st))
+        flat = nat_canon(flat)
+        out = []
+        for ax in range(len(old) - 1, -1, -1):
+            if ax == 0:
+                out.append(flat)
+            else:
+                o = _dim_node(old[ax])
+                out.append(nat_mod(flat, o))
+                flat = nat_floordiv(flat, o)
+        return s.fn(tuple(reversed(out)))
+    return Sym(new, fn, s.kind)
+
+
 def sym_reshape(x, shape):
     s = lift(x)
     s._noparts('reshape')
+    try:
+        return _unit_axes_reshape(s, shape)
+    except Untraceable:
+        return _general_reshape(s, shape)
+
+
+def _unit_axes_reshape(s, shape):
     new = []
     for d in shape:
         if isinstance(d, (int, _np.integer)) and int(d) == -1:
@@ -842,6 +1164,69 @@ def sym_getitem(s, key):
                 j -= d
             raise Untraceable('index out of range')
         raise Untraceable('this kind of indexing of a concatenated vector')
+    plan, new_shape = _index_plan(s, key)
+
+    def fn(idx):
+        full = []
+        for pl in plan:
+            if pl[0] == 'fix':
+                full.append(pl[1])
+            elif pl[0] == 'shift':
+                full.append(nat_canon(('add', pl[2], idx[pl[1]])))
+            else:
+                i = idx[pl[1]]
+                if (pl[2], pl[3]) != (0, 1):
+                    if i[0] != 'const':
+                        raise Untraceable('symbolic index into a sliced axis')
+                    i = K(pl[2] + pl[3] * int(i[1]))
+                full.append(i)
+        return s.fn(tuple(full))
+    return Sym(new_shape, fn, s.kind)
+
+
+def _slice_bound(v, default):
+    if v is None:
+        return default
+    if isinstance(v, DimInt):
+        return v.node
+    if isinstance(v, Sym):
+        v0 = v._scalar('slice bound')
+        if v0.kind != 'nat':
+            raise Untraceable('a slice bound that is not a whole number')
+        return v0.fn(())
+    if isinstance(v, (int, _np.integer)) and not isinstance(v, bool) and int(v) >= 0:
+        return K(int(v))
+    raise Untraceable('slice bound %r of a symbolic-length axis' % (v,))
+
+
+def _poly_sub(a, b):
+    """a - b as a polynomial with non-negative coefficients, else None"""
+    out = dict(nat_poly(a))
+    for mono, c in nat_poly(b).items():
+        out[mono] = out.get(mono, 0) - c
+        if out[mono] == 0:
+            del out[mono]
+    if any(c < 0 for c in out.values()):
+        return None
+    return out
+
+
+def _symbolic_slice(k, d):
+    """`a[start:stop]` (step 1) of an axis of extent `d`, bounds built from the extents (`x[:n_dim]`, `x[n_dim:]`):
+    -> (start node, length as int / node); the bounds must visibly satisfy start <= stop <= d"""
+    if k.step not in (None, 1):
+        raise Untraceable('a strided slice of a symbolic-length axis')
+    dn = _dim_node(d)
+    start, stop = _slice_bound(k.start, ZERO), _slice_bound(k.stop, dn)
+    length, room = _poly_sub(stop, start), _poly_sub(dn, stop)
+    if length is None or room is None:
+        raise Untraceable('a partial slice of a symbolic-length axis whose bounds are not visibly ordered')
+    ln = poly_node(length)
+    return nat_canon(start), (int(ln[1]) if ln[0] == 'const' else ln)
+
+
+def _index_plan(s, key):
+    """-> (per OLD axis: ('fix', node) | ('keep', new_axis, start, step), shape of the selection)"""
     # expand Ellipsis
     n_real = sum(1 for k in key if k is not None and k is not Ellipsis)
     if any(k is Ellipsis for k in key):
@@ -877,31 +1262,69 @@ def sym_getitem(s, key):
             if k == slice(None):
                 plan.append(('keep', len(new_shape), 0, 1))
                 new_shape.append(d)
-            elif isinstance(d, int) and all(v is None or isinstance(v, (int, _np.integer)) for v in
-                                            (k.start, k.stop, k.step)):
+            elif isinstance(d, int) and all(v is None or (isinstance(v, (int, _np.integer)) and not isinstance(v, DimInt))
+                                            for v in (k.start, k.stop, k.step)):
                 rg = range(*k.indices(d))
                 plan.append(('keep', len(new_shape), rg.start, rg.step))
                 new_shape.append(len(rg))
             else:
-                raise Untraceable('a partial slice of a symbolic-length axis')
+                start, length = _symbolic_slice(k, d)
+                plan.append(('shift', len(new_shape), start))
+                new_shape.append(length)
         else:
             raise Untraceable('index of type %s' % type(k).__name__)
         ax += 1
+    return plan, new_shape
+
+
+def sym_setitem(s, key, value):
+    """`a[key] = value` for a freshly allocated array and keys made of `:`, constant slices and constant /
+    symbolic single indices (`dtheta[:, 0] = dmus`): the array's entries become a case distinction on the
+    constant positions"""
+    if s.parts is not None or not s.owner:
+        raise Untraceable('item assignment into an array that was not freshly allocated (an argument or a view)')
+    if not isinstance(key, tuple):
+        key = (key,)
+    if any(isinstance(k, Sym) and (k.kind == 'bool' or k.shape_ != ()) for k in key):
+        raise Untraceable('item assignment through a mask / index array')
+    plan, new_shape = _index_plan(s, key)
+    if any(pl[0] == 'shift' for pl in plan):
+        raise Untraceable('item assignment into a slice with symbolic bounds')
+    val = lift(value)
+    val._noparts('item assignment')
+    b = _bshape([tuple(new_shape), val.shape_])
+    if len(b) != len(new_shape) or not all(_same_dim(x, y) for x, y in zip(b, new_shape)):
+        raise Untraceable('item assignment: value of shape %s into a selection of shape %s'
+                          % (shape_text(val.shape_), shape_text(new_shape)))
+    vf, old, r = val.fn, s.fn, len(new_shape)
+    lengths = list(new_shape)
 
     def fn(idx):
-        full = []
-        for pl in plan:
+        sub = [None] * r
+        for ax, pl in enumerate(plan):
+            i = idx[ax]
             if pl[0] == 'fix':
-                full.append(pl[1])
-            else:
-                i = idx[pl[1]]
-                if (pl[2], pl[3]) != (0, 1):
-                    if i[0] != 'const':
-                        raise Untraceable('symbolic index into a sliced axis')
-                    i = K(pl[2] + pl[3] * int(i[1]))
-                full.append(i)
-        return s.fn(tuple(full))
-    return Sym(new_shape, fn, s.kind)
+                if i == pl[1]:
+                    continue
+                if i[0] != 'const' or pl[1][0] != 'const':
+                    raise Untraceable('symbolic index into an array assembled by item assignment')
+                return old(idx)
+            if (pl[2], pl[3]) == (0, 1) and not isinstance(lengths[pl[1]], int):
+                sub[pl[1]] = i
+                continue
+            if (pl[2], pl[3]) == (0, 1) and _same_dim(lengths[pl[1]], s.shape_[ax]):
+                sub[pl[1]] = i
+                continue
+            if i[0] != 'const':
+                raise Untraceable('symbolic index into an axis that was assigned slice by slice')
+            off = int(i[1]) - pl[2]
+            if off % pl[3] != 0 or not 0 <= off // pl[3] < lengths[pl[1]]:
+                return old(idx)
+            sub[pl[1]] = K(off // pl[3])
+        return vf(_pick(val, tuple(sub), r))
+    s.fn = fn
+    if val.kind == 'real':
+        s.kind = 'real'
 
 
 def concat(parts):
@@ -927,7 +1350,26 @@ def full(shape, value, **kw):
         shp = (_as_dim(shape),)
     v = lift(value)._scalar('fill value')
     nd = v.fn(())
-    return Sym(shp, lambda idx: nd, v.kind if v.kind != 'nat' else 'real')
+    return Sym(shp, lambda idx: nd, v.kind if v.kind != 'nat' else 'real', owner=True)
+
+
+def empty(shape):
+    if isinstance(shape, (tuple, list)):
+        shp = tuple(_as_dim(d) for d in shape)
+    else:
+        shp = (_as_dim(shape),)
+    return Sym(shp, lambda idx: ('uninit',), 'real', owner=True)
+
+
+def broadcast_to(x, shape):
+    s = lift(x)
+    s._noparts('broadcast_to')
+    shp = tuple(_as_dim(d) for d in (shape if isinstance(shape, (tuple, list)) else (shape,)))
+    full_shape = _bshape([shp, s.shape_])
+    if len(full_shape) != len(shp) or not all(_same_dim(a, b) for a, b in zip(full_shape, shp)):
+        raise Untraceable('broadcast_to %s -> %s' % (shape_text(s.shape_), shape_text(shp)))
+    r = len(shp)
+    return Sym(shp, lambda idx: s.fn(_pick(s, idx, r)), s.kind)
 
 
 # ----------------------------------------------------------------------------------------------------------
@@ -943,6 +1385,66 @@ class _FloatMeta(type):
 
 class SymFloat(metaclass=_FloatMeta):
     """`float` / `np.float64` inside the traced module: the identity on symbols"""
+
+
+class _IntMeta(type):
+    def __instancecheck__(cls, x):
+        return isinstance(x, int)
+
+    def __call__(cls, x=0, *a):
+        if isinstance(x, DimInt):
+            return x
+        if isinstance(x, Sym):
+            if x.kind == 'nat':
+                return x
+            raise Untraceable('int() of a symbolic value')
+        return int(x, *a)
+
+
+class SymInt(metaclass=_IntMeta):
+    """`int` inside the traced module: the identity on symbolic whole numbers"""
+
+
+def sym_range(*args):
+    if any(isinstance(a, (DimInt, Sym)) for a in args):
+        if Trace.current is not None:
+            raise Untraceable('Python-level loop over a symbolic extent')
+        args = [int.__index__(a) if isinstance(a, DimInt) else a for a in args]
+    return builtins.range(*args)
+
+
+def _sym_unary(name, real_fn):
+    def f(x, *a, **k):
+        if isinstance(x, Sym):
+            return ew('fn:' + name, x)
+        return real_fn(x, *a, **k)
+    return f
+
+
+class _ModuleProxy(object):
+    """a module some of whose functions are replaced by symbolic ones (`scipy.special.erf`, `scipy.stats.norm`)"""
+
+    def __init__(self, real, over):
+        self.__dict__['_real'] = real
+        self.__dict__['_over'] = over
+
+    def __getattr__(self, name):
+        if name in self._over:
+            return self._over[name]
+        return getattr(self._real, name)
+
+
+def _proxy_modules():
+    out = {}
+    try:
+        import scipy.special as sp
+        import scipy.stats as st
+        out['scipy.special'] = _ModuleProxy(sp, {'erf': _sym_unary('erf', sp.erf)})
+        norm = _ModuleProxy(st.norm, {'cdf': _sym_unary('normcdf', st.norm.cdf), 'pdf': _sym_unary('normpdf', st.norm.pdf)})
+        out['scipy.stats'] = _ModuleProxy(st, {'norm': norm})
+    except Exception:  # noqa
+        pass
+    return out
 
 
 class _NoOp(object):
@@ -1105,6 +1607,18 @@ class SymNP(object):
     def ones(self, shape, **kw):
         return full(shape, 1.0)
 
+    def empty(self, shape, *a, **kw):
+        return empty(shape)
+
+    def empty_like(self, x, *a, **kw):
+        return empty(lift(x).shape)
+
+    def broadcast_to(self, x, shape, **kw):
+        return broadcast_to(x, shape)
+
+    def floor_divide(self, a, b):
+        return lift(a) // b
+
     def full_like(self, x, value, **kw):
         return full(lift(x).shape, value)
 
@@ -1118,6 +1632,30 @@ class SymNP(object):
         if axis not in (0, -1, None):
             raise Untraceable('concatenate along axis %r' % (axis,))
         return concat([self.atleast_1d(x) if axis is None else x for x in seq])
+
+    def stack(self, seq, axis=0, **kw):
+        items = [lift(x) for x in seq]
+        if not items:
+            raise Untraceable('np.stack of nothing')
+        shp = items[0].shape_
+        for it in items:
+            it._noparts('stacking')
+            if len(it.shape_) != len(shp) or any(not _same_dim(a, b) for a, b in zip(it.shape_, shp)):
+                raise Untraceable('stacking arrays of different shapes')
+        ax = int(axis)
+        if ax < 0:
+            ax += len(shp) + 1
+        if not 0 <= ax <= len(shp):
+            raise Untraceable('np.stack along axis %r' % (axis,))
+        fns = [it.fn for it in items]
+
+        def fn(idx):
+            i = idx[ax]
+            if i[0] != 'const':
+                raise Untraceable('symbolic index into a stacked axis')
+            return fns[int(i[1])](tuple(idx[:ax]) + tuple(idx[ax + 1:]))
+        return Sym(tuple(shp[:ax]) + (len(items),) + tuple(shp[ax:]), fn, _join_kind([it.kind for it in items]),
+                   owner=True)
 
     def hstack(self, seq):
         return concat([self.atleast_1d(x) for x in seq])
@@ -1167,17 +1705,23 @@ def sym_abs(x):
     return ew('abs', x) if isinstance(x, Sym) else builtins.abs(x)
 
 
-def sym_builtins(np_obj):
+def sym_builtins(np_obj, extended=False):
     b = dict(vars(builtins))
     real_import = builtins.__import__
+
+    proxies = _proxy_modules() if extended else {}
 
     def imp(name, globals=None, locals=None, fromlist=(), level=0):
         if name == 'numpy' and level == 0:
             return np_obj
         if name.startswith('numpy.'):
             raise Untraceable('import of %s' % name)
+        if level == 0 and fromlist and name in proxies:
+            return proxies[name]
         return real_import(name, globals, locals, fromlist, level)
     b.update({'__import__': imp, 'len': sym_len, 'float': SymFloat, 'sum': sym_sum, 'abs': sym_abs})
+    if extended:
+        b.update({'int': SymInt, 'range': sym_range})
     return b
 
 
@@ -1185,7 +1729,7 @@ def sym_builtins(np_obj):
 # printing: Lean (over the scalar class) and a readable text for guards
 # ----------------------------------------------------------------------------------------------------------
 def var_name(bv):
-    base = {'n': 'j', 'p': 'k'}.get(bv[1], 'i')
+    base = {'n': 'j', 'p': 'k', 'nIds': 'i', 'nDim': 'd'}.get(bv[1], 'i')
     return base if bv[2] == 0 else base + str(bv[2])
 
 
@@ -1202,6 +1746,8 @@ def emit_nat(node, _ctx=None):
         return var_name(node)
     if t in ('add', 'mul'):
         return '(%s %s %s)' % (emit_nat(node[1]), '+' if t == 'add' else '*', emit_nat(node[2]))
+    if t in ('natdiv', 'natmod'):
+        return '(%s %s %s)' % (emit_nat(node[1]), '/' if t == 'natdiv' else '%', emit_nat(node[2]))
     raise Untraceable('index / extent built with %r' % t)
 
 
@@ -1249,6 +1795,10 @@ def emit(node):
         return '%s %s' % (t, _par(emit(node[1]), 100)), 99
     if t == 'sum':
         return 'isum %s (fun %s => %s)' % (emit_nat(node[2]), var_name(node[1]), emit(node[3])[0]), 99
+    if t == 'fn':
+        return '%s %s' % (OPAQUE_FNS[node[1]][0], _par(emit(node[2]), 100)), 99
+    if t == 'uninit':
+        raise Untraceable('the result reads an entry of an np.empty array that was never assigned')
     if t in ('inf', 'nan'):
         raise Untraceable('the returned expression contains %s on the support side' % t)
     if t == 'abs':
@@ -1290,8 +1840,12 @@ def show(node):
         return '(%s)**%d' % (show(node[1]), node[2])
     if t in ('log', 'exp', 'sqrt', 'abs'):
         return '%s(%s)' % (t, show(node[1]))
-    if t == 'opaque':
+    if t in ('opaque', 'fn'):
         return '%s(%s)' % (node[1], show(node[2]))
+    if t in ('natdiv', 'natmod'):
+        return '(%s) %s (%s)' % (show(node[1]), '//' if t == 'natdiv' else '%', show(node[2]))
+    if t == 'ph':
+        return '_%d' % node[1]
     if t in ('sum', 'any', 'all'):
         return '%s %s<%s: %s' % (t, var_name(node[1]), show(node[2]), show(node[3]))
     return repr(node)
@@ -1520,13 +2074,15 @@ def explore_sides(cls, m, k, what, env, primary, max_runs=8):
 class _LivePatch(object):
     """fallback: the imported module's own function objects with `np` / `len` / ... replaced for the trace"""
 
-    def __init__(self, mod, np_obj):
+    def __init__(self, mod, np_obj, extra=None):
         self.mod, self.np_obj = mod, np_obj
         self.saved = {}
+        self.extra = extra or {}
 
     def __enter__(self):
         g = vars(self.mod)
         new = {'np': self.np_obj, 'len': sym_len, 'float': SymFloat, 'sum': sym_sum, 'abs': sym_abs}
+        new.update(self.extra)
         for key, v in new.items():
             self.saved[key] = g.get(key, self)
             g[key] = v
@@ -1667,9 +2223,9 @@ def _strip_imports(text):
     return '\n'.join(ln for ln in text.splitlines() if not ln.startswith('import ')) + '\n'
 
 
-def proof_blocks():
+def proof_blocks(proof_file=None):
     """(preamble, {theorem name: text}, postamble) of the committed proof script"""
-    src = _strip_imports(open(PROOF_FILE).read())
+    src = _strip_imports(open(proof_file or PROOF_FILE).read())
     first = src.index('\ntheorem ')
     pre = src[:first + 1]
     end = src.rindex('\nend ChiModel')
@@ -1683,10 +2239,12 @@ def proof_blocks():
     return pre, blocks, post
 
 
-def reprove(gen_text, kernels, budget_s=REPROVE_BUDGET_S, tag='scratch'):
+def reprove(gen_text, kernels, budget_s=REPROVE_BUDGET_S, tag='scratch', proof_file=None, theorem_of_fn=None,
+            imports=('ChiProofs.Tie.Basic',)):
     """re-run the unchanged proof script of the theorems of `kernels` against `gen_text`.
-    -> {kernel: (ok, detail)}"""
+    -> {kernel: (ok, detail)}   (`proof_file` / `theorem_of_fn` / `imports`: another module's tie, e.g. C05)"""
     res = {}
+    theorem_of = theorem_of_fn or globals()['theorem_of']
     if not kernels:
         return res
     t0 = time.time()
@@ -1698,7 +2256,7 @@ def reprove(gen_text, kernels, budget_s=REPROVE_BUDGET_S, tag='scratch'):
         except OSError:
             pass
     try:
-        pre, blocks, post = proof_blocks()
+        pre, blocks, post = proof_blocks(proof_file)
     except Exception as e:  # noqa
         return {kn: (False, 'proof script unreadable: %s' % _describe(e)) for kn in kernels}
     groups = {}
@@ -1713,7 +2271,7 @@ def reprove(gen_text, kernels, budget_s=REPROVE_BUDGET_S, tag='scratch'):
         kns = [kn for kn in kns if kn not in missing]
         if not kns:
             continue
-        text = 'import ChiProofs.Tie.Basic\n' + _strip_imports(gen_text) + pre
+        text = ''.join('import %s\n' % im for im in imports) + _strip_imports(gen_text) + pre
         starts = {}
         for kn in kns:
             starts[kn] = text.count('\n') + 1
